@@ -534,7 +534,7 @@ async fn run_case(case: &Case) -> CaseOut {
 
 pub fn run<C: Codec>(tier: Tier) -> i32 {
     let mut ctx = Ctx::<C>::new("C19", tier);
-    ctx.assumptions.push("a demand issued while that very poll is running is not judged; fairness between associations is asserted through the 'nothing due is left waiting while the channel is idle' and ordering clauses, not as a separate round-robin clause".into());
+    ctx.assumptions.push("a demand issued while that very poll is running is not judged; turn-taking: between two user requests of one association every other association whose request has waited since before the first must have been served (suspended once 15 requests wait at the same time); requests refused with TooManyRequests (documented back-pressure at 16 waiting requests) leave the model's queue".into());
     ctx.run::<Sched>();
     ctx.finish()
 }
